@@ -655,7 +655,7 @@ func (r *rows) Next(dest []driver.Value) error {
 	if len(r.cols) == 1 && r.res.NullAtRow > 0 && r.pos == r.res.NullAtRow-1 {
 		dest[0] = nil
 	}
-	if len(r.cols) == 1 && len(r.st.Strings) < 5000 {
+	if len(r.cols) == 1 && len(r.st.Strings) < 100000 {
 		if sv, ok := dest[0].(string); ok {
 			r.st.Strings = append(r.st.Strings, sv)
 		}
